@@ -5,8 +5,8 @@ from vcheck import Case, gz, gzlist, gzmat, gopt, gblist
 PROP = "C17"
 LEVEL = "proof"
 GEN_UNITS = ["GenUtils", "GenKernels", "GenUtils2", "GenHandles", "GenFgSetup"]
-COQ_TARGETS = ["Props/C17.vo", "Props/C17Fg.vo", "Model/Harness.vo"]
-THEOREM_FILES = ["Props/C17.v", "Props/C17Fg.v"]
+COQ_TARGETS = ["Props/C17.vo", "Props/C17w4.vo", "Props/C17Fg.vo", "Model/Harness.vo"]
+THEOREM_FILES = ["Props/C17.v", "Props/C17w4.v", "Props/C17Fg.v"]
 INCLUDE = ["w3gen"]   # wave 3: the functions the translator generates since then (GenUtils3, GenUtils3b, GenKernels3, GenMethods*):
                        # their bridge lemmas / laws (Props/W3*.v) and their differential stream run inside this check
 COQ_IMPORTS = ("From Coq Require Import Reals List ZArith Bool.\n"
@@ -16,7 +16,10 @@ RULE = ("exhaustive over small shapes/index sets + seeded random stream; a case 
         "1-cell or the request is empty; distinct = distinct (op, arguments incl. memory layout / dtype presentation); "
         "wave 3: array arguments also as F-ordered / strided / negative-stride / offset views and int32 / int16 / uint8 arrays "
         "(arguments must come back unmodified), row operands over different ranges and with repeated rows, mixed-dtype "
-        "Khatri-Rao operands, tensors with more cells than a narrow index dtype holds, helper outputs fed into the next helper")
+        "Khatri-Rao operands, tensors with more cells than a narrow index dtype holds, helper outputs fed into the next helper; "
+        "wave 4: row operands in int8 / int16 / int32 with more rows than the dtype counts (129..300 rows, 33k rows for int16), "
+        "np.argsort on repeated keys up to length 40 (stable kind = model, default kind = any valid argsort), every observed "
+        "intersect / setdiff result judged by the full-strength contract (failures attributed to A-41 only under its exact trigger)")
 EXPLANATION = ("Theorems are stated over Gen/GenUtils.v, regenerated from pyttb_utils.py on this run; the correspondence "
                "stream additionally runs the same generated functions against pyttb on explicit inputs (guards the translator).")
 
@@ -168,6 +171,12 @@ def gen_cases(rng, tier):
         v = rng.sample(range(-5, 12), rng.randint(0, 6))
         w = [rng.randint(-2, 6) for _ in range(rng.randint(0, 6))]
         cases.append(Case("prim_argsort", {"v": v}, len(v) > 1))
+        # wave 4 (audit E): REPEATED keys, also longer than 16 entries (numpy's default kind leaves insertion sort there):
+        # kind="stable" must equal the model's np_argsort (theorem C17_argsort_stable: the unique (key, position)-ordered
+        # permutation); of the default kind only "a valid argsort" is required
+        nk = rng.choice([2, 3, 5, 8, 17, 24, 40])
+        vt = [rng.randint(0, rng.choice([1, 2, 4])) for _ in range(nk)]
+        cases.append(Case("prim_argsort", {"v": vt, "ties": True}, True))
         cases.append(Case("prim_setdiff1d", {"a": w, "b": v}, bool(w) and bool(v)))
         cases.append(Case("prim_isin", {"a": w, "b": v}, bool(w) and bool(v)))
         n = rng.randint(1, 6)
@@ -195,6 +204,35 @@ def gen_cases(rng, tier):
             b = [list(x) for x in dict.fromkeys(map(tuple, b))]
         for op in ("ismember", "intersect", "setdiff", "union"):
             cases.append(Case(op, {"a": a, "b": b, "k": k}, True))
+    # --- wave 4: row helpers on operands stored in a NARROW integer dtype (int8 / int16: compactly stored subscripts) with
+    #     MORE ROWS than that dtype can count (> 127 / > 32767): the positions returned must not be computed in the operands'
+    #     dtype. The search rows are taken from high positions of the long operand (+ a few absent rows); both argument orders.
+    def _pool_rows(k_, dt_):
+        if k_ == 1:
+            return [[x] for x in (range(-128, 128) if dt_ == "int8" else range(-300, 300))]
+        return [[x, y] for x in range(-12, 13) for y in range(-12, 13)]
+    for _ in range(60 if big else 14):
+        k = rng.randint(1, 2)
+        dt = rng.choice(["int8", "int8", "int8", "int16", "int32"])
+        pool = _pool_rows(k, dt)
+        nlong = rng.randint(129, min(len(pool) - 6, 300))
+        rows_ = rng.sample(pool, nlong + 3)
+        long_, absent = rows_[:nlong], rows_[nlong:]
+        short = [long_[rng.randrange(120, nlong)] for _ in range(rng.randint(1, 5))] + absent[:rng.randint(0, 2)]
+        if rng.random() < 0.6:
+            short = [list(x) for x in dict.fromkeys(map(tuple, short))]
+        rng.shuffle(short)
+        lay = [rng.choice(LAYOUTS), dt]
+        for op in ("ismember", "intersect", "setdiff", "union"):
+            cases.append(Case(op, {"a": short, "b": long_, "k": k, "lay": lay}, True))
+            cases.append(Case(op, {"a": long_, "b": short, "k": k, "lay": lay}, True))
+    for _ in range(5 if big else 2):       # int16 with > 32767 source rows: membership only (the model's row sort is quadratic)
+        nlong = rng.randint(32800, 33500)
+        vals = rng.sample(range(-32768, 32768), nlong + 1)
+        long_ = [[x] for x in vals[:nlong]]
+        short = [long_[rng.randrange(32768, nlong)], long_[rng.randrange(0, 100)], long_[nlong - 1], [vals[nlong]]]
+        rng.shuffle(short)
+        cases.append(Case("ismember", {"a": short, "b": long_, "k": 1, "lay": ["C", "int16"]}, True))
     # --- Khatri-Rao of operands of DIFFERENT dtypes (int / float32 / float64, half-integer values): the product must
     #     not depend on which operand comes first
     for _ in range(400 if big else 120):
@@ -408,7 +446,8 @@ def _run_impl(c, np, track):
             u, i = np.unique(mat(a["m"], a["k"]), axis=0, return_index=True)
             return {"ok": [[[int(x) for x in r] for r in u], [int(x) for x in i]]}
         if c.op == "prim_argsort":
-            return {"ok": [int(x) for x in np.argsort(vec(a["v"]))]}
+            x_ = vec(a["v"])
+            return {"ok": [int(x) for x in np.argsort(x_, kind="stable")], "dflt": [int(x) for x in np.argsort(x_)]}
         if c.op == "prim_setdiff1d":
             return {"ok": [int(x) for x in np.setdiff1d(vec(a["a"]), vec(a["b"]))]}
         if c.op == "prim_isin":
@@ -458,7 +497,13 @@ def coq_check(c, o):
         return f"res_eqb (pair_eqb bvec_eqb vec_eqb) (tt_ismember_rows {gzmat(a['a'])} {gzmat(a['b'])}) {exp}"
     if c.op in ("intersect", "setdiff"):
         exp = "Err" if "exc" in o else f"(Ok {gzlist(o['ok'])})"
-        return f"res_eqb vec_eqb (tt_{c.op}_rows {gzmat(a['a'])} {gzmat(a['b'])}) {exp}"
+        e = f"res_eqb vec_eqb (tt_{c.op}_rows {gzmat(a['a'])} {gzmat(a['b'])}) {exp}"
+        if _rows_contract(c, o) is not None:
+            # wave 4: the FULL-STRENGTH contract (A[result] = the distinct common / remaining rows, each once) is judged on
+            # pyttb's own output; a failure counts as a mismatch even where the generated model agrees with the code, and is
+            # attributed to the open finding A-41 only on requests satisfying its exact trigger (a41_dup_before_common)
+            e = f"({e}) && false"
+        return e
     if c.op == "union":
         exp = "Err" if "exc" in o else f"(Ok {gzmat(o['ok'])})"
         return f"res_eqb mat_eqb (tt_union_rows {gzmat(a['a'])} {gzmat(a['b'])}) {exp}"
@@ -519,8 +564,10 @@ def coq_check(c, o):
         return "false"
     if c.op == "prim_unique_rows":
         return f"pair_eqb mat_eqb vec_eqb (np_unique_rows {gzmat(a['m'])}) ({gzmat(o['ok'][0])}, {gzlist(o['ok'][1])})"
-    if c.op == "prim_argsort":
-        return f"vec_eqb (np_argsort {gzlist(a['v'])}) {gzlist(o['ok'])}"
+    if c.op == "prim_argsort":       # stable kind: equality with the model; default kind: any valid argsort
+        return (f"vec_eqb (np_argsort {gzlist(a['v'])}) {gzlist(o['ok'])} && "
+                f"vec_eqb (np_sort {gzlist(o['dflt'])}) (np_arange 0%Z {gz(len(a['v']))}) && "
+                f"vec_eqb (np_take 0%Z {gzlist(a['v'])} {gzlist(o['dflt'])}) (np_sort {gzlist(a['v'])})")
     if c.op == "prim_setdiff1d":
         return f"vec_eqb (np_setdiff1d {gzlist(a['a'])} {gzlist(a['b'])}) {gzlist(o['ok'])}"
     if c.op == "prim_isin":
@@ -632,22 +679,7 @@ def oracle(c, o):
                 return f"search row {i} absent from source but reported {r[i]}"
         return None
     if c.op in ("intersect", "setdiff"):
-        A, B = a["a"], a["b"]
-        if "exc" in o:
-            return "rejected"
-        if len({tuple(x) for x in A}) != len(A):
-            if c.op == "setdiff":
-                return None  # repeated rows in the first argument: positions in A and in its de-duplicated copy are mixed (A-41)
-            # intersect with repeated rows in A (open finding A-41): judged by the weaker, documented reading "positions in
-            # the de-duplicated first argument"
-            A = [x for n_, x in enumerate(A) if x not in A[:n_]]
-        rows = [A[i] for i in o["ok"]] if all(0 <= i < len(A) for i in o["ok"]) else None
-        if rows is None:
-            return "index outside the first argument"
-        want = [r for r in A if (r in B) == (c.op == "intersect")]
-        if sorted(map(tuple, rows)) != sorted(map(tuple, want)) or len(rows) != len(want):
-            return f"rows selected {rows} are not the set-algebra answer {want}"
-        return None
+        return _rows_contract(c, o)
     if c.op == "fg_setup":
         # losses that evaluate log(model + EPS) or divide by (model + EPS) are differentiable only for model >= 0
         need_zero = a["objective"] in ("BERNOULLI_ODDS", "POISSON", "RAYLEIGH", "GAMMA", "NEGATIVE_BINOMIAL", "BETA")
@@ -762,6 +794,17 @@ def oracle(c, o):
         if not all(m) or [u[x] for x in r] != A:
             return f"rows of A not located in union(A, B): {m}, {r}"
         return None
+    if c.op == "prim_argsort":
+        v = a["v"]
+        if "exc" in o:
+            return f"np.argsort rejected an integer vector ({o['exc']})"
+        want = sorted(range(len(v)), key=lambda i_: (v[i_], i_))
+        if o["ok"] != want:
+            return f"np.argsort(kind='stable') = {o['ok']} is not the (key, position)-ordered permutation {want}"
+        d = o["dflt"]
+        if sorted(d) != list(range(len(v))) or any(v[d[i_]] > v[d[i_ + 1]] for i_ in range(len(d) - 1)):
+            return f"np.argsort (default kind) = {d} is not a valid argsort of {v}"
+        return None
     if c.op == "khatrirao":
         mats = a["mats"][::-1] if a["reverse"] else a["mats"]
         R = len(mats[0][0])
@@ -778,7 +821,42 @@ def oracle(c, o):
     return None
 
 
+def _rows_contract(c, o):
+    """full-strength reading of the property for tt_intersect_rows / tt_setdiff_rows, for ALL arguments (repeated rows
+    included): the result holds row indices of A, and A[result] is exactly the set of distinct rows of A that do (intersect) /
+    do not (setdiff) occur in B, each once"""
+    A, B = c.args["a"], c.args["b"]
+    if "exc" in o:
+        return f"rejected ({o['exc']})"
+    if "ok" not in o:
+        return None
+    if any(not (0 <= i < len(A)) for i in o["ok"]):
+        return "index outside the first argument"
+    rows = [A[i] for i in o["ok"]]
+    dA = [x for n_, x in enumerate(A) if x not in A[:n_]]
+    want = [r for r in dA if (r in B) == (c.op == "intersect")]
+    if sorted(map(tuple, rows)) != sorted(map(tuple, want)):
+        return (f"A[{o['ok']}] = {rows[:8]}{'...' if len(rows) > 8 else ''} is not the set-algebra answer "
+                f"{want[:8]}{'...' if len(want) > 8 else ''} (distinct rows of A {'in' if c.op == 'intersect' else 'not in'} B, each once)")
+    return None
+
+
 # ---- known findings -----------------------------------------------------------------------------------------
+
+def _a41_dup_before_common(c):
+    """A-41, exact request-level trigger = a41_trigger of Proofs/C17A41.v (theorems C17_a41_intersect_exact: tt_intersect_rows
+    meets the full contract exactly outside it; C17_a41_setdiff_outside: so does tt_setdiff_rows outside it; that setdiff fails
+    everywhere inside is checked by this stream and was compared exhaustively with pyttb on 3 146 small requests): some row r of A that also occurs in B is not the row of A at position
+    rank_A(r) (its rank among the distinct rows of A) — i.e. r's first occurrence in A comes after a repeated row of A."""
+    if c.op not in ("intersect", "setdiff"):
+        return False
+    A, B = c.args["a"], c.args["b"]
+    dA = []
+    for r in A:
+        if r not in dA:
+            dA.append(r)
+    return any(A[rank] != r for rank, r in enumerate(dA) if r in B)
+
 
 def _union_witness():
     """C17-UNION: tt_union_rows with a duplicate-free second argument that is not in lexicographic row order"""
@@ -854,6 +932,7 @@ def _ind2sub_dtype_witness():
     return None if got == [[3, 0]] else f"tt_ind2sub((16, 16), uint8 [3]) = {got}"
 
 
-TRIGGERS = {"union_unsorted_b": _union_unsorted_b, "ind2sub_narrow_dtype": _ind2sub_narrow_dtype, "wrap_unsigned_bc0": _wrap_unsigned_bc0}
+TRIGGERS = {"union_unsorted_b": _union_unsorted_b, "ind2sub_narrow_dtype": _ind2sub_narrow_dtype, "wrap_unsigned_bc0": _wrap_unsigned_bc0,
+            "a41_dup_before_common": _a41_dup_before_common}
 WITNESSES = {"C17-UNION": _union_witness, "A-41": _dupA_witness, "C17-WRAP-UINT": _wrap_uint_witness,
              "C17-IND2SUB-DTYPE": _ind2sub_dtype_witness}
